@@ -23,6 +23,13 @@ def srcTag : Pkg → String
 
 /-! ### regenerated facts -/
 
+/-- F14p: a flag set that is already parsed (the application called `flag.Parse()` itself, as `NewCmdLineSet` documents)
+is not parsed again by `Value`: the model's `Value` folds over each occurrence exactly once, and the accumulation
+theorems below (`C12_strSlice_accumulate`, `C12_intSlice_accumulate`, `C12_mapSSlice_accumulate`, ...) would be false
+of an implementation that replays the command line a second time. -/
+theorem C12_parsed_once : Facts.flagParseOnlyIfUnparsed = true := by
+  decide
+
 /-- F14 as the proofs below need it: mkname asks the source-specific tag first, then `dials`; a flag name
 that exists already and a source tag "-" skip the field; Value walks only the flags that were set; the
 standard-library source guards the narrowing conversion with willOverflow; every helper's first Set replaces
